@@ -437,6 +437,10 @@ def Poisson.sample_f64 [SF α] (self : Poisson α) (rng : Rng) : α × Rng :=
 
 /-- students_t.rs:148 -/
 def StudentsT.sample_f64 (self : StudentsT α) (rng : Rng) : α × Rng :=
+  -- if self.freedom.is_infinite() { return normal::sample_unchecked(r, self.location, self.scale); }
+  if (RFun.isInf self.f_freedom) = true then
+    normal_sample_unchecked (α := α) rng self.f_location self.f_scale
+  else
   let (gamma, rng) := gamma_sample_unchecked (α := α) rng ((0.5 : α) * self.f_freedom) (0.5 : α)
   normal_sample_unchecked (α := α) rng self.f_location (self.f_scale * (RFun.sqrt (self.f_freedom / gamma)))
 
